@@ -186,6 +186,7 @@ fn main() {
                 "verdict" => replay::replay_verdict_file(&get("in", "/dev/stdin")),
                 "dig" => digwl::replay_dig_file(&get("in", "/dev/stdin"), seed),
                 "sched" => replay::replay_sched_file(&get("in", "/dev/stdin")),
+                "expr" => replay::replay_expr_file(&get("in", "/dev/stdin")),
                 _ => replay::replay_file(&get("in", "/dev/stdin"), seed),
             };
             std::fs::write(get("out", "/dev/stdout"), serde_json::to_string(&summary).unwrap()).expect("write summary");
